@@ -6,7 +6,9 @@ after expiry instants) over every operation that reads or writes expiry,
 compared with DC.Model.Cache; judged by the reference dictionary, which leaves
 the instant now == expire_time open.  A systematic grid (every expiry-reading
 call x before / on / after the expiry instant x inline / file-backed x
-cull_limit) runs first."""
+cull_limit) runs first, then a lazy-cull family (3-25 items on one expiry
+instant x cull_limit 0/1/2/10 x every kind of write) judged on consecutive
+states: a write removes only expired items and at most cull_limit of them."""
 import gen
 from props import base, refdict
 
@@ -67,8 +69,83 @@ def expiry_grid():
     return hists
 
 
+def lazy_cull_histories():
+    """the lazy removal done by writes: n expired items, many of them on ONE expiry instant, some not
+    yet expired and some without expiry, then writes of every kind with cull_limit in {0,1,2,10}: each
+    write may remove only expired items and at most cull_limit of them"""
+    hists = []
+    for n_tied, n_other in ((3, 2), (12, 3), (25, 0)):
+        for cull in (0, 1, 2, 10):
+            for v in (7, b'F' * 40):
+                ops = []
+                for i in range(n_tied):
+                    ops.append({'m': 'set', 'now': 1000, 'k': 't%d' % i, 'v': v, 'ttl': 5, 'tag': None})
+                for i in range(n_other):
+                    ops.append({'m': 'set', 'now': 1000, 'k': 'o%d' % i, 'v': v, 'ttl': 3 + i, 'tag': None})
+                ops.append({'m': 'set', 'now': 1000, 'k': 'later', 'v': v, 'ttl': 500, 'tag': None})
+                ops.append({'m': 'set', 'now': 1000, 'k': 'forever', 'v': v, 'ttl': None, 'tag': None})
+                ops.append({'m': 'set', 'now': 1000, 'k': 'n', 'v': 1, 'ttl': None, 'tag': None})
+                for j, w in enumerate([{'m': 'set', 'k': 'w0', 'v': v, 'ttl': None, 'tag': None},
+                                       {'m': 'add', 'k': 'w1', 'v': v, 'ttl': 9, 'tag': None},
+                                       {'m': 'incr', 'k': 'n', 'delta': 1, 'default': 0},
+                                       {'m': 'push', 'v': v, 'prefix': None, 'side': 'back', 'ttl': None, 'tag': None},
+                                       {'m': 'set', 'k': 't0', 'v': v, 'ttl': None, 'tag': None},
+                                       {'m': 'touch', 'k': 'forever', 'ttl': 50}]):
+                    ops.append(dict(w, now=1010 + j))
+                    ops.append({'m': 'len', 'now': 1010 + j})
+                ops.append({'m': 'get', 'now': 1020, 'k': 'later'})
+                ops.append({'m': 'get', 'now': 1020, 'k': 'forever'})
+                hists.append({'cfg': {'mfs': 8, 'policy': 'lrs', 'cull': cull, 'stats': 0, 'proto': 5, 'disk': 'pickle',
+                                      'limN': 2 ** 30, 'limD': 1, 'tagidx': 0}, 'ops': ops, 'state_every': 1})
+    return hists
+
+
+def lazy_cull_check(hist, io):
+    """on consecutive observed states: a write removes only items whose expiry time has passed, and at
+    most cull_limit of them (the size limit of these histories is never reached, so nothing is evicted)"""
+    from props.c09 import parse_rows
+    cfg = hist['cfg']
+    if cfg.get('limN', 2 ** 30) < 2 ** 30 and cfg.get('policy', 'lrs') != 'none':
+        return None
+    cull = cfg.get('cull', 10)
+    prev = None
+    lines = list(io)
+    for j, (line, ans) in enumerate(lines):
+        if line.startswith('op '):
+            f = dict(t.split('=', 1) for t in line.split(' ')[1:] if '=' in t)
+            m = f.get('m')
+            if m == 'reset' and f.get('key') == 'cull_limit':
+                cull = int(f['value'])
+            if m in ('set', 'add', 'incr', 'push', 'touch') and prev is not None and j > 0 and lines[j - 1][0] == 'state' \
+                    and j + 1 < len(lines) and lines[j + 1][0] == 'state':
+                try:
+                    cur = parse_rows(lines[j + 1][1])
+                except Exception:
+                    return None
+                now = int(f.get('now', 0))
+                after = {r['rowid'] for r in cur}
+                wk = f.get('k', '')
+                gone = [r for r in prev if r['rowid'] not in after
+                        and not (r['key'] == wk or (wk[:1] == 'o' and r['key'] == 'y' + wk[1:]) or (wk[:1] in 'if' and r['key'][:1] in 'if'))]
+                fresh = [r for r in gone if r['exp'] is None or r['exp'] > now]
+                if fresh:
+                    return 'a write removed an item whose expiry time had not passed (rowid %d, expiry %s, now %d) at %s' % (
+                        fresh[0]['rowid'], fresh[0]['exp'], now, line[:100])
+                if len(gone) > cull:
+                    return 'one write removed %d expired items, cull_limit is %d, at %s' % (len(gone), cull, line[:100])
+        if line == 'state':
+            try:
+                prev = parse_rows(ans)
+            except Exception:
+                prev = None
+    return None
+
+
 def acceptor(hist, io):
     err = refdict.accept(hist, io, scope=SCOPE)
+    if err:
+        return err
+    err = lazy_cull_check(hist, io)
     if err:
         return err
     # expire(): afterwards no item whose expiry time has passed may be left (any look-up
@@ -83,7 +160,7 @@ def run(tier, seed, rng, known, replay):
     if replay:
         return base.replay_file(replay, 'C04', ('result', 'state'), acceptor)
     n_short, n_long, n_mass = (160, 16, 12) if tier == 'quick' else (2400, 200, 120)
-    hists = expiry_grid() + [ttl_history(rng, rng.choice([15, 40, 80])) for _ in range(n_short)]
+    hists = expiry_grid() + lazy_cull_histories() + [ttl_history(rng, rng.choice([15, 40, 80])) for _ in range(n_short)]
     hists += [ttl_history(rng, 300) for _ in range(n_long)]
     hists += [mass_expiry(rng, rng.choice([101, 205, 260])) for _ in range(n_mass)]
     r = base.check_histories('C04', hists, ('result', 'state'), acceptor=acceptor, known=known)
